@@ -95,3 +95,16 @@ Definition chk_dec (c : fmt * bool * list Z * option (val * Z)) : bool :=
   | Err DecodeError => match exp with None => true | Some _ => false end
   | Err _ => false
   end.
+
+(* RecordHeader2 through its API view: create(len,pad,esc).write() = Some bytes / None (refused) *)
+Definition chk_rh2 (c : Z * Z * bool * option (list Z)) : bool :=
+  let '(len, pad, esc, impl) := c in
+  match rh2_val len pad esc, impl with
+  | Some v, Some bs =>
+      match encode fmt_RecordHeader2 v with Ok b => list_eqb b bs | Err _ => false end
+      && match rh2_fields v with
+         | Some (l, p, e) => (l =? len) && (p =? pad) && Bool.eqb e esc
+         | None => false end
+  | None, None => true
+  | _, _ => false
+  end.
